@@ -855,6 +855,25 @@ struct Tracked
 };
 static_assert(sizeof(Tracked) == 40, "40-byte tracked element");
 
+// an element that knows where it lives: trivially destructible, but every copy has to run the copy constructor
+// (a container that moves its elements around bitwise leaves `self` pointing at the old place)
+struct SelfRef
+{
+  uint64_t v;
+  const SelfRef *self;
+  uint64_t w;
+  SelfRef() : v(0), self(this), w(~0ull) {}
+  explicit SelfRef(uint64_t x) : v(x), self(this), w(~x) {}
+  SelfRef(const SelfRef &o) : v(o.v), self(this), w(o.w) {}
+  SelfRef &operator=(const SelfRef &o)
+  {
+    v = o.v;
+    w = o.w;
+    return *this;
+  }
+};
+static_assert(std::is_trivially_destructible<SelfRef>::value, "SelfRef has no destructor of its own");
+
 static void mk(char &o, uint64_t v) { o = (char)(v * 131 + 7); }
 static void mk(int &o, uint64_t v) { o = (int)(uint32_t)(v * 2654435761u + 1); }
 static void mk(double &o, uint64_t v) { o = (double)(v % 1000003) * 0.5 + 1.0; }
@@ -870,6 +889,7 @@ static void mk(S100 &o, uint64_t v)
     o.w[i] = (uint32_t)(v * 7 + (uint64_t)i * 0x9E3779B1u);
 }
 static void mk(Tracked &o, uint64_t v) { o = Tracked(v + 1); }
+static void mk(SelfRef &o, uint64_t v) { o = SelfRef(v + 1); }
 
 static bool eq(char a, char b) { return a == b; }
 static bool eq(int a, int b) { return a == b; }
@@ -881,6 +901,8 @@ static bool eq(const Tracked &a, const Tracked &b)
   return a.v == b.v && a.chk == b.chk && a.pad[0] == b.pad[0] && a.pad[1] == b.pad[1] && a.pad[2] == b.pad[2] &&
          (a.chk == (a.v ^ 0xC14C14C14ull) || (a.v == 0 && a.chk == 0xC14C14C14ull));
 }
+
+static bool eq(const SelfRef &a, const SelfRef &b) { return a.v == b.v && a.w == b.w && a.w == ~a.v && a.self == &a && b.self == &b; }
 
 template <typename T>
 static T val(vh::Rng &r)
@@ -1214,6 +1236,7 @@ static void vectorCaseBody(long k, VecStats &S, int t)
     g_lt->constructed = g_lt->destroyed = 0;
     break;
   }
+  case 6: vectorHistory<SelfRef>(k, t, "SelfRef24", 3000, S); break;
   }
 }
 
@@ -1230,7 +1253,7 @@ static const long MAX_DEAD_CASES = 24;
 static void vectorCase(long k)
 {
   VecStats S;
-  int t = (int)(k % 6);
+  int t = (int)(k % 7);
   if (g_gauge) {
     if (g_gauge->started - g_gauge->finished >= MAX_DEAD_CASES) {
       g_gauge->skipped++;
@@ -1251,8 +1274,8 @@ static void vectorCase(long k)
       g_lt->constructed = g_lt->destroyed = 0;
     }
   }
-  static const char *TN[6] = {"vector_histories_char", "vector_histories_int", "vector_histories_double", "vector_histories_S24",
-                              "vector_histories_S100", "vector_histories_Tracked40"};
+  static const char *TN[7] = {"vector_histories_char", "vector_histories_int", "vector_histories_double", "vector_histories_S24",
+                              "vector_histories_S100", "vector_histories_Tracked40", "vector_histories_SelfRef24"};
   vh::count(TN[t]);
   for (int i = 0; i < NOPS; ++i)
     if (S.ops[i])
@@ -1268,7 +1291,7 @@ static void vectorCase(long k)
 static void phaseVectors()
 {
   g_lt   = new vh::Lifetime("C14:AlignedVector:element");
-  long n = (long)vh::tier(4000, 120000);
+  long n = (long)vh::tier(4900, 140000);
   // forked: a release through the wrong function aborts inside the allocator / ASan
   vh::flushStats();
   g_gauge = (CrashGauge *)mmap(0, sizeof(CrashGauge), PROT_READ | PROT_WRITE, MAP_SHARED | MAP_ANONYMOUS, -1, 0);
@@ -1308,7 +1331,7 @@ int main(int argc, char **argv)
       "allocations: every (API kind, byte size, alignment) of the boundary grid {0,1,2,3,7,8,15..17,31..33,63..65,127,128,"
       "4095..4097,65535..65537,2^20,2^24} x {1..4096} through alignedMalloc, alignedMalloc<T>, aligned_allocator<T,A>, then seeded "
       "random alloc/free interleavings (<=512 live blocks, 1 and 8 threads); distinct = hash(kind, bytes, alignment), non-trivial = "
-      "bytes > 0. vectors: seeded histories of 16..120 operations on AlignedVector<T> for 6 element types; distinct = hash(type, "
+      "bytes > 0. vectors: seeded histories of 16..120 operations on AlignedVector<T> for 7 element types (plain, 24/100-byte structs, lifetime-tracked, self-referencing); distinct = hash(type, "
       "operation sequence with arguments), non-trivial = at least one reallocation moved existing elements");
   vh::note("backend", C14_TBB ? "RKCOMMON_TASKING_TBB: scalable_aligned_malloc / scalable_aligned_free (usable size via scalable_msize)"
                               : "_mm_malloc / _mm_free (usable size via malloc_usable_size)");
